@@ -10,19 +10,22 @@
      {"e":"open","ok":bool,"exc":"none"|type}           FileSniffer constructed (with the filter)
      {"e":"next","idx","same","sec","usec","exc"}       next_packet(); idx = originating frame, 0 = null packet
      {"e":"loop","api":"loop"|"loopmax"|"iter","k","got":[[idx,same,has_ts,sec,usec],...],"exc"}
+     {"e":"setfilter","which":<index into fr[i].mm / fokl>,"ok","exc"}   BaseSniffer::set_filter on the open reader
      {"e":"offline","buf":[[lib,ref],...],"pdu":[[lib,ref],...]}   OfflinePacketFilter vs pcap_offline_filter
    An event with exc # "none" (an exception left the call) is accepted by no action: the execution is rejected. *)
 EXTENDS TraceIO, Integers
 VARIABLES frames, filt, out,
-          phase      \* "new" -> "file" -> "open";  "outside" = outside the property's quantifier (see File)
-vars == <<ex, l, frames, filt, out, phase>>
+          phase,     \* "new" -> "file" -> "open";  "outside" = outside the property's quantifier (see File)
+          cur,       \* which of the execution's filters is in force (index into every frame's mm; 1 = the one the reader was opened with)
+          pos        \* number of file records the reader has consumed (set_filter() acts on what has not been read yet)
+vars == <<ex, l, frames, filt, out, phase, cur, pos>>
 A == INSTANCE CaptureAbs
 
 \* "for every supported link type" -- the property's quantifier
 Supported == {"EN10MB", "IEEE802_11", "IEEE802_11_RADIO", "NULL", "LINUX_SLL", "RAW", "PPI"}
 
 Init == \E s \in Starts : /\ TraceInit(s)
-                          /\ frames = <<>> /\ filt = FALSE /\ out = <<>> /\ phase = "new"
+                          /\ frames = <<>> /\ filt = FALSE /\ out = <<>> /\ phase = "new" /\ cur = 1 /\ pos = 0
 
 (* The property quantifies over the supported link types and over filter expressions libpcap accepts; a file
    whose link type is outside that set, or a filter libpcap itself refuses for the link type, is outside the
@@ -30,15 +33,19 @@ Init == \E s \in Starts : /\ TraceInit(s)
 File == /\ IsEvent("file") /\ phase = "new"
         /\ frames' = Ev.fr /\ filt' = Ev.filt
         /\ phase' = IF Ev.flt \in Supported /\ Ev.fok THEN "file" ELSE "outside"
-        /\ UNCHANGED out
+        /\ UNCHANGED <<out, cur, pos>>
 Outside == /\ phase = "outside" /\ l <= EndOf(ex) /\ l' = l + 1
-           /\ UNCHANGED <<ex, frames, filt, out, phase>>
+           /\ UNCHANGED <<ex, frames, filt, out, phase, cur, pos>>
 
 \* "Reading any capture file ..." of a supported link type: the reader can be constructed
 Open == /\ IsEvent("open") /\ phase = "file"
         /\ Ev.ok /\ Ev.exc = "none"
         /\ phase' = "open"
-        /\ UNCHANGED <<frames, filt, out>>
+        /\ UNCHANGED <<frames, filt, out, cur, pos>>
+
+\* the file as the filter in force sees it, and "everything up to record pos has been consumed" in CaptureAbs' terms
+Now == [i \in 1..Len(frames) |-> [cls |-> frames[i].cls, m |-> frames[i].mm[cur]]]
+Consumed == IF pos = 0 THEN <<>> ELSE <<pos>>
 
 \* a delivered packet: its frame's bytes and microsecond timestamp
 \*   "come back ... with identical bytes and microsecond timestamps"; "return the first that parses with its timestamp"
@@ -49,30 +56,41 @@ GoodPacket(idx, same, hasts, sec, usec) ==
 \* next_packet(): "yields, in order, exactly the frames that parse, skips malformed ones, ends cleanly at end of file"
 NextPkt == /\ IsEvent("next") /\ phase = "open"
            /\ Ev.exc = "none"                                  \* "never lets an exception ... escape"
-           /\ Ev.idx = A!NextIdx(frames, filt, out)
+           /\ Ev.idx = A!NextIdx(Now, TRUE, Consumed)
            /\ Ev.idx # 0 => GoodPacket(Ev.idx, Ev.same, TRUE, Ev.sec, Ev.usec)
            /\ out' = IF Ev.idx = 0 THEN out ELSE Append(out, Ev.idx)
-           /\ UNCHANGED <<frames, filt, phase>>
+           /\ pos' = IF Ev.idx = 0 THEN Len(frames) ELSE Ev.idx           \* read up to the packet handed out / to the end of the file
+           /\ UNCHANGED <<frames, filt, phase, cur>>
 
 \* sniff_loop (functor returning false at its k-th call / max_packets = k) and begin()..end() iteration (break after k)
 Loop == /\ IsEvent("loop") /\ phase = "open"
         /\ Ev.exc = "none"                                     \* "... from the per-packet loop or range iteration"
-        /\ LET exp == A!Deliveries(frames, filt, out, Ev.k) IN
+        /\ LET exp == A!Deliveries(Now, TRUE, Consumed, Ev.k) IN
            /\ Len(Ev.got) = Len(exp)                           \* exactly the selected frames, none more, none fewer
            /\ \A j \in 1..Len(exp) :
                 /\ Ev.got[j][1] = exp[j]                       \* in order
                 /\ GoodPacket(exp[j], Ev.got[j][2] = 1, Ev.got[j][3] = 1, Ev.got[j][4], Ev.got[j][5])
            /\ out' = out \o exp
-        /\ UNCHANGED <<frames, filt, phase>>
+           \* the user stopped the loop at its k-th packet: nothing after it has been read; otherwise the loop ran to the end of the file
+           /\ pos' = IF Ev.k > 0 /\ Len(exp) = Ev.k THEN exp[Ev.k] ELSE Len(frames)
+        /\ UNCHANGED <<frames, filt, phase, cur>>
 
 \* "a BPF filter applied ... offline selects exactly the frames libpcap says match"
 Offline == /\ IsEvent("offline") /\ phase = "open"
            /\ Ev.exc = "none"
            /\ \A j \in 1..Len(Ev.buf) : Ev.buf[j][1] = Ev.buf[j][2]
            /\ \A j \in 1..Len(Ev.pdu) : Ev.pdu[j][1] = Ev.pdu[j][2]
-           /\ UNCHANGED <<frames, filt, out, phase>>
+           /\ UNCHANGED <<frames, filt, out, phase, cur, pos>>
 
-Next == File \/ Open \/ Outside \/ NextPkt \/ Loop \/ Offline
+\* set_filter() on an open reader: "a BPF filter applied by the sniffer ... selects exactly the frames libpcap says match" - from the
+\* records not yet read on; an expression libpcap refuses for the link type is refused (FALSE) and the filter in force stays
+SetFilter == /\ IsEvent("setfilter") /\ phase = "open"
+             /\ Ev.exc = "none"
+             /\ Ev.ok = Log[ex + 1].fokl[Ev.which]
+             /\ cur' = IF Ev.ok THEN Ev.which ELSE cur
+             /\ UNCHANGED <<frames, filt, out, phase, pos>>
+
+Next == File \/ Open \/ Outside \/ NextPkt \/ Loop \/ Offline \/ SetFilter
 MarkSilent == NoteSkipped(phase = "outside")
 Spec == Init /\ [][Next]_vars
 =============================================================================
